@@ -345,9 +345,27 @@ func ownRules3(j *judge, doc map[string]interface{}, a aApp) {
 	if asStr(asMap(doc["info"])["title"]) == "" || asStr(asMap(doc["info"])["version"]) == "" {
 		j.fail("not-well-formed:info", "info.title and info.version are required")
 	}
+	checkInfo(j, doc, a)
 }
 
-func wellFormed3(j *judge, jsonB []byte) {
+// the info attributes the exporters read: a version / description in the document is the one of the application
+func checkInfo(j *judge, doc map[string]interface{}, a aApp) {
+	info := asMap(doc["info"])
+	if v := asStr(info["version"]); a.Version != "" && v != a.Version {
+		j.fail("info:version", "@version = %q is exported as info.version %q", a.Version, v)
+	}
+	if d, has := info["description"]; a.Desc != "" && (!has || asStr(d) != a.Desc) {
+		j.fail("info:description", "@description = %q is exported as info.description %v", a.Desc, d)
+	}
+	if a.Server != "" && j.fmtName == "oas3" {
+		srv := asList(doc["servers"])
+		if len(srv) != 1 || asStr(asMap(srv[0])["url"]) != a.Server {
+			j.fail("info:server", "@env.1.url = %q is exported as servers %s", a.Server, compact(doc["servers"]))
+		}
+	}
+}
+
+func wellFormed3(j *judge, jsonB []byte, a aApp) {
 	loader := openapi3.NewLoader()
 	doc, err := loader.LoadFromData(jsonB)
 	if err != nil && strings.Contains(err.Error(), "kin-openapi bug found: circular schema reference not handled") {
@@ -366,6 +384,13 @@ func wellFormed3(j *judge, jsonB []byte) {
 		return
 	}
 	if err := doc.Validate(context.Background()); err != nil {
+		// known: an RPC-style endpoint (one-word name) is exported as the GET operation of the "path" that is its name
+		for _, ep := range a.Endpoints {
+			if ep.Plain && strings.Contains(err.Error(), fmt.Sprintf("path %q does not start with a forward slash", ep.Path)) {
+				j.fail("not-well-formed:rpc-endpoint-as-path", "the RPC-style endpoint %s is exported as the operation GET of the path %q, which is not a path: %v", ep.Path, ep.Path, firstLine(err.Error()))
+				return
+			}
+		}
 		j.fail("not-well-formed:validate:"+errClass(err), "kin-openapi rejects the document: %v", err)
 	}
 }
@@ -404,7 +429,7 @@ func danglingRefs2(j *judge, doc map[string]interface{}) {
 	walk(doc["definitions"], "definitions")
 }
 
-func wellFormed2(j *judge, jsonB []byte, doc map[string]interface{}) {
+func wellFormed2(j *judge, jsonB []byte, doc map[string]interface{}, a aApp) {
 	danglingRefs2(j, doc)
 	var k openapi2.T
 	if err := json.Unmarshal(jsonB, &k); err != nil {
@@ -424,21 +449,53 @@ func wellFormed2(j *judge, jsonB []byte, doc map[string]interface{}) {
 	if asStr(info["version"]) == "" {
 		j.fail("not-well-formed:info-version", "info.version is required and missing")
 	}
+	checkInfo(j, doc, a)
 	// the parameter object of Swagger 2
 	for path, pi := range asMap(doc["paths"]) {
 		for meth, opv := range asMap(pi) {
 			where := meth + " " + path
+			// the parameters of this operation that are of a declared type: by location, the type names (a header
+			// parameter may be exported without its name), and the query parameters written without braces
+			declared, bareQ := map[string]map[string]int{"path": {}, "query": {}, "header": {}}, map[string]bool{}
+			for _, ep := range a.Endpoints {
+				if ep.Plain || ep.Path != path || strings.ToLower(ep.Method) != meth {
+					continue
+				}
+				for _, ap := range ep.Params {
+					if ap.T.Kind == "ref" && ap.In != "body" {
+						if ap.T.Bare {
+							bareQ[ap.Name] = true
+						} else {
+							declared[ap.In][ap.T.Ref]++
+						}
+					}
+				}
+			}
 			for _, pv := range asList(asMap(opv)["parameters"]) {
 				p := asMap(pv)
 				in := asStr(p["in"])
 				_, hasSchema := p["schema"]
+				refShape := false
+				// known shape 1: a path / query / header parameter of declared type T is written as
+				// {type: object, format: T, schema: {$ref: T}} - Swagger 2 has no such parameter (own key, by location)
+				if f := asStr(p["format"]); in != "body" && hasSchema && asStr(p["type"]) == "object" && declared[in][f] > 0 &&
+					asStr(asMap(p["schema"])["$ref"]) == "#/definitions/"+f && len(asMap(p["schema"])) == 1 {
+					declared[in][f]--
+					refShape = true
+					j.fail("not-well-formed:reference-typed-param:"+in, "%s: the %s parameter of declared type %s is written as %s; a Swagger 2 non-body parameter has a primitive type and no schema", where, in, f, compact(p))
+				}
+				// known shape 2: `?status=Status` (no braces) reaches the exporter without a type: {in: query, name: status}
+				if _, hasType := p["type"]; in == "query" && bareQ[asStr(p["name"])] && !hasType && !hasSchema {
+					j.fail("not-well-formed:param-without-type:query-bare-type-name", "%s: query parameter %v has neither type nor schema: %s", where, p["name"], compact(p))
+					continue
+				}
 				switch {
 				case asStr(p["name"]) == "":
 					j.fail("not-well-formed:param-without-name:"+in, "%s: a parameter in %q has no name: %s", where, in, compact(p))
 				case in == "":
 					j.fail("not-well-formed:param-without-in", "%s: parameter %v has no `in`", where, p["name"])
 				}
-				if hasSchema && in != "body" {
+				if hasSchema && in != "body" && !refShape {
 					j.fail("not-well-formed:schema-on-non-body-param:"+in, "%s: parameter in %q carries a schema (only body parameters may): %s", where, in, compact(p))
 				}
 				if in == "body" && !hasSchema {
@@ -449,7 +506,7 @@ func wellFormed2(j *judge, jsonB []byte, doc map[string]interface{}) {
 						j.fail("not-well-formed:path-param-not-required", "%s: path parameter %v must have required: true", where, p["name"])
 					}
 				}
-				if in != "body" {
+				if in != "body" && !refShape {
 					switch asStr(p["type"]) {
 					case "string", "number", "integer", "boolean", "array", "file":
 					default:
@@ -662,6 +719,21 @@ func (j *judge) checkEndpoints(a aApp, doc map[string]interface{}, refPrefix str
 			}
 			byKey[k] = p
 		}
+		// an unnamed header parameter that carries a schema is either the body parameter (known) or a header parameter of a
+		// declared type written in the hand-written style (no name=".."): as many of the latter as the endpoint has
+		if j.fmtName == "swagger" {
+			nRefHdr := 0
+			for _, p := range ep.Params {
+				if p.In == "header" && p.T.Kind == "ref" && byKey["header/"+p.Name] == nil {
+					nRefHdr++
+				}
+			}
+			if nRefHdr > bodyAsHeader {
+				nRefHdr = bodyAsHeader
+			}
+			bodyAsHeader -= nRefHdr
+			unnamedHeaders += nRefHdr
+		}
 		nWant := 0
 		for _, p := range ep.Params {
 			if p.In == "body" {
@@ -718,9 +790,23 @@ func (j *judge) checkEndpoints(a aApp, doc map[string]interface{}, refPrefix str
 					j.fail("param-required:"+p.In, "%s: %s parameter %s <: %s must have required=%v", where, p.In, p.Name, typeText(p.T), wantReq)
 				}
 			}
-			if j.fmtName == "oas3" {
+			if p.T.Bare {
+				// `?status=Status`: the parameter has to refer to Status.  The known shape: no schema at all
+				// (OpenAPI 3: the empty schema {}; Swagger: neither type nor schema)
+				var sch interface{} = got["schema"]
+				_, hasType := got["type"]
+				if sm, ok := sch.(map[string]interface{}); j.fmtName == "oas3" && ok && len(sm) == 0 || j.fmtName == "swagger" && sch == nil && !hasType {
+					j.fail("param-schema-empty:query-bare-type-name", "%s: query parameter %s is written `%s=%s` (no braces); the exported parameter says nothing about its type: %s", where, p.Name, p.Name, p.T.Ref, compact(got))
+					continue
+				}
+			}
+			switch {
+			case j.fmtName == "oas3":
 				j.checkType(p.T, got["schema"], refPrefix, "param", where+" "+p.Name)
-			} else {
+			case p.T.Kind == "ref" && got["schema"] != nil:
+				// Swagger, declared type: what carries the reference is the schema the exporter attaches
+				j.checkType(p.T, got["schema"], refPrefix, "param", where+" "+p.Name)
+			default:
 				j.checkType(p.T, got, refPrefix, "param", where+" "+p.Name)
 			}
 		}
@@ -749,9 +835,53 @@ func (j *judge) checkEndpoints(a aApp, doc map[string]interface{}, refPrefix str
 				j.fail("not-well-formed:no-responses", "%s: an operation must have at least one response", where)
 			}
 		}
+		perCode := map[string][]aRet{}
 		for _, r := range ep.Rets {
+			perCode[retCode(r.Name)] = append(perCode[retCode(r.Name)], r)
+		}
+		for ri, r := range ep.Rets {
 			code := retCode(r.Name)
 			rv, ok := resps[code]
+			if same := perCode[code]; ok && len(same) > 1 {
+				// several return statements with one status: the document has one response under that status; it has
+				// to carry the payload of one of them (judged once per status)
+				if ri > 0 && func() bool {
+					for _, o := range ep.Rets[:ri] {
+						if retCode(o.Name) == code {
+							return true
+						}
+					}
+					return false
+				}() {
+					continue
+				}
+				var sch interface{}
+				if j.fmtName == "oas3" {
+					sch = asMap(asMap(asMap(rv)["content"])["application/json"])["schema"]
+				} else {
+					sch = asMap(rv)["schema"]
+				}
+				// it fits when it presents the payload of one of them; otherwise it is judged against the last one (the
+				// exporters keep the last writer), under the keys a single return statement would get
+				var last []finding
+				fits, typed := false, 0
+				for _, o := range same {
+					if o.T == nil {
+						continue
+					}
+					typed++
+					t := &judge{fmtName: j.fmtName}
+					t.checkType(*o.T, sch, refPrefix, "response", where+" -> "+code)
+					fits = fits || len(t.out) == 0
+					last = t.out
+				}
+				if typed > 0 && !fits {
+					for _, f := range last {
+						j.fail(strings.TrimPrefix(f.Key, j.fmtName+":"), "%s (%d return statements have status %s)", f.What, len(same), code)
+					}
+				}
+				continue
+			}
 			if !ok {
 				cls := "numeric"
 				if r.Name == "ok" || r.Name == "error" || r.Name == "" {
@@ -981,6 +1111,9 @@ func (j *judge) checkRoundTrip(a aApp, app *sysl.Application) {
 				j.fail("roundtrip:missing-param:"+p.In, "after re-import %s has no %s parameter %s", key, p.In, p.Name)
 				continue
 			}
+			if p.T.Bare {
+				continue // the exported document does not say what its type is (reported by the completeness clause)
+			}
 			want, g := rtOfAbstract(p.T), rtOfSysl(got)
 			if p.In == "path" {
 				want.Opt, g.Opt = false, false
@@ -1003,14 +1136,18 @@ func (j *judge) checkRoundTrip(a aApp, app *sysl.Application) {
 				got[retCode(strings.TrimSpace(parts[0]))] = ty
 			}
 		}
+		nPer := map[string]int{}
+		for _, r := range ep.Rets {
+			nPer[retCode(r.Name)]++
+		}
 		for _, r := range ep.Rets {
 			ty, ok := got[retCode(r.Name)]
 			if !ok {
 				j.fail("roundtrip:missing-response", "after re-import %s has no `return %s` (returns: %v)", key, retCode(r.Name), got)
 				continue
 			}
-			if r.T == nil {
-				continue
+			if r.T == nil || nPer[retCode(r.Name)] > 1 {
+				continue // several returns with one status: which payload the one response carries is judged on the document
 			}
 			want := ""
 			switch r.T.Kind {
